@@ -65,12 +65,13 @@ typedef struct { uint64_t w[2]; } h_ldbits;
 static long double h_ld_of_bits (uint64_t lo, uint64_t hi) {
   union { long double ld; uint64_t w[2]; } u;
   u.w[0] = lo;
-#if H_CBMC
-  u.w[1] = hi;
-#else
-  u.w[1] = hi & 0xffff;
-#endif
+  u.w[1] = hi & 0xffff; /* only the 80 bits that exist natively vary (CBMC would otherwise find counterexamples that differ in bits 80..127 only) */
   return u.ld;
+}
+static long double h_ld_nd (void) { /* two nd() calls in a defined order (argument evaluation order differs between CBMC and gcc) */
+  uint64_t lo = nd ();
+  uint64_t hi = nd ();
+  return h_ld_of_bits (lo, hi);
 }
 static h_ldbits h_bits_of_ld (long double v) {
   union { long double ld; uint64_t w[2]; } u;
@@ -214,7 +215,7 @@ static void h_abi_make_results (x86_state *s, const h_case_t *c, const uint8_t *
     case SC_R_RDX: h_res_raw[i] = s->r[2]; break;
     case SC_R_XMM0: h_res_raw[i] = s->xmm[0][0]; break;
     case SC_R_XMM1: h_res_raw[i] = s->xmm[1][0]; break;
-    default: h_res_ld[i] = h_ld_of_bits (nd (), nd ()); x86_fpush (s, h_res_ld[i]); break;
+    default: h_res_ld[i] = h_ld_nd (); x86_fpush (s, h_res_ld[i]); break;
     }
 }
 #endif
